@@ -6,4 +6,8 @@ export CARGO_NET_OFFLINE=true
 for p in rel dbg; do
   cargo build --profile $p --manifest-path engine/Cargo.toml --target-dir engine/target >/dev/null 2>&1 || { echo "engine/$p build failed"; cargo build --profile $p --manifest-path engine/Cargo.toml --target-dir engine/target 2>&1 | tail -20; exit 1; }
 done
+for p in rel dbg; do
+  cargo build --profile $p --manifest-path engine/Cargo.toml --no-default-features --target-dir engine/target-nostd >/dev/null 2>&1 || { echo "engine nostd/$p build failed"; exit 1; }
+  cargo build --profile $p --manifest-path engine/Cargo.toml --no-default-features --features bstd,bextra --target-dir engine/target-extra >/dev/null 2>&1 || { echo "engine extra/$p build failed"; exit 1; }
+done
 echo setup ok
